@@ -102,6 +102,8 @@ pub enum WitnessState {
     FailsDifferently(String),
     /// this build of the harness cannot replay that witness kind in-process
     NotReplayable,
+    /// the monitor replays this witness as part of its own run and arms the signature itself
+    Deferred,
 }
 
 fn paths_of(v: &Value, key: &str) -> Option<Vec<String>> {
@@ -196,6 +198,7 @@ pub fn arm(ctx: &Ctx, external: &dyn Fn(&Value) -> Option<WitnessState>) -> Resu
                 armed.ids.push((f.trigger.clone(), f.id.clone()));
                 armed.params.push((f.trigger.clone(), f.witness.clone()));
             }
+            (_, WitnessState::Deferred) => {}
             ("open", WitnessState::Passes) => {
                 eprintln!("note: open finding {} no longer reproduces; its signature stays disarmed", f.id);
             }
